@@ -190,7 +190,7 @@ def rewrite_text(kind, k):
     return f"{kind}{k}-REWRITTEN"
 
 
-def run_c16_case(case):
+def run_c16_case(case, history=None, state=None):
     """One fresh LLMRails, one generate call with generation options."""
     Rails, RailsConfig, ActionResult, ScriptLLM = _impl()
     key = (case["n_in"], case["n_out"], case["n_ret"], case["dmode"])
@@ -237,7 +237,8 @@ def run_c16_case(case):
         app.runtime.generate_events = wrapped
         _APP_CACHE[key] = (app, llm, box)
     app, llm, box = _APP_CACHE[key]
-    app.events_history_cache.clear()
+    if history is None:
+        app.events_history_cache.clear()
     llm.tasks = []
     llm.i = 0
     box["case"] = case
@@ -246,7 +247,7 @@ def run_c16_case(case):
     calls = box["calls"]
     captured = box["captured"]
 
-    msgs = [{"role": "user", "content": case["user"]}]
+    msgs = list(history or []) + [{"role": "user", "content": case["user"]}]
     if case.get("bot") is not None:
         msgs.append({"role": case.get("role", "assistant"), "content": case["bot"]})
     obs = {"reply": None, "exc": None, "rails": None}
@@ -255,7 +256,11 @@ def run_c16_case(case):
             o = {"log": {"activated_rails": True}}
             if case.get("opts") is not None:
                 o["rails"] = case["opts"]
-            res = app.generate(messages=msgs, options=o)
+            if state is not None:
+                res = app.generate(messages=msgs, options=o, state=state)
+                box["last_state"] = res.state
+            else:
+                res = app.generate(messages=msgs, options=o)
             r = res.response
             obs["reply"] = r[0]["content"] if isinstance(r, list) else r
             obs["role"] = r[0]["role"] if isinstance(r, list) else "assistant"
@@ -271,6 +276,31 @@ def run_c16_case(case):
     obs["llm"] = list(llm.tasks)
     obs["plog"] = abstract_plog(captured[-1]) if captured and captured[-1] is not None else None
     return obs
+
+
+def run_c16_conv(conv):
+    """A conversation on ONE instance through the message-history API: every turn sends the whole
+    history (previous user messages and the replies received) plus the new user message (and the
+    supplied bot message), with ITS OWN options.  conv = {n_in, n_out, n_ret, dmode, turns: [...]}."""
+    history = []
+    out = []
+    first = True
+    use_state = conv.get("mode") == "state"      # explicit state object instead of the message history
+    state = {}
+    for turn in conv["turns"]:
+        case = {**turn, "n_in": conv["n_in"], "n_out": conv["n_out"], "n_ret": conv["n_ret"], "dmode": conv["dmode"]}
+        if use_state:
+            obs = run_c16_case(case, history=None, state=state)
+            state = _APP_CACHE[(conv["n_in"], conv["n_out"], conv["n_ret"], conv["dmode"])][2].get("last_state") or state
+        else:
+            obs = run_c16_case(case, history=None if first else history)
+        first = False
+        out.append(obs)
+        if obs.get("exc") or obs.get("reply") is None:
+            break
+        history = history + [{"role": "user", "content": turn["user"]},
+                             {"role": obs.get("role", "assistant"), "content": obs["reply"]}]
+    return out
 
 
 # --------------------------------------------------------------------------------------
@@ -334,6 +364,52 @@ def case_gen_text(case, t):
     if t < len(gs) and gs[t] is not None:
         return gs[t]
     return LLM_TEXT if case.get("version", "v1") == "v1" else f"{LLM_TEXT}-{t}"
+
+
+class _StrRaises(Exception):
+    """str(e) raises (e.g. `"retry after " + self.retry_after` with an int)."""
+
+    def __init__(self):
+        super().__init__("x")
+        self.retry_after = 3
+
+    def __str__(self):
+        return "retry after " + self.retry_after
+
+
+class _ReprRaises(Exception):
+    def __repr__(self):
+        raise ValueError("repr of the exception raises")
+
+    def __str__(self):
+        raise ValueError("str of the exception raises")
+
+
+class _Unprintable:
+    def __repr__(self):
+        raise RuntimeError("unprintable argument")
+
+    __str__ = __repr__
+
+
+def make_exception(kind):
+    """X: plain RuntimeError; XS: __str__ raises; XR: __repr__ and __str__ raise;
+    XA: non-string / unprintable args.  (BaseException subclasses such as KeyboardInterrupt are
+    not `exceptions raised by an action` in the sense of the property: `except Exception`.)"""
+    if kind == "XS":
+        return _StrRaises()
+    if kind == "XR":
+        return _ReprRaises()
+    if kind == "XA":
+        return KeyError(123, _Unprintable(), {"k": _Unprintable()})
+    return RuntimeError("scripted fault")
+
+
+def _fault_kind(case, turn, site, occ):
+    for f in case.get("faults", []):
+        if f[0] == turn and f[1] == site and f[2] == occ:
+            return f[3] if len(f) > 3 else "X"
+    return "X"
 
 
 def _decide(case, turn, site, occ):
@@ -402,6 +478,15 @@ def _c03_app(version):
     if key in _APP_CACHE:
         return _APP_CACHE[key]
     Rails, RailsConfig, ActionResult, ScriptLLM = _impl()
+    # WARNING and above are really formatted and emitted (to a null stream), as in a deployment: the
+    # containment code logs the exception object, and formatting it is part of what is under test
+    if not _CACHE.get("logging_on"):
+        h = logging.StreamHandler(open(os.devnull, "w"))
+        h.setLevel(logging.WARNING)
+        logging.getLogger().addHandler(h)
+        logging.getLogger().setLevel(logging.WARNING)
+        logging.disable(logging.INFO)
+        _CACHE["logging_on"] = True
     if version == "v1":
         cfg = RailsConfig.from_content(colang_content=V1_C03_CO, yaml_content=V1_C03_YAML)
         names = V1_ACTIONS
@@ -424,7 +509,7 @@ def _c03_app(version):
             box["calls"].append([name, text if name.startswith(("in_", "out_")) else None])
             v = _decide(box["case"], box["turn"], name, k)
             if v == "X":
-                raise RuntimeError("scripted fault")
+                raise make_exception(_fault_kind(box["case"], box["turn"], name, k))
             if name == "gen_action":
                 return case_gen_text(box["case"], box["turn"])
             if name == "ret_action":
@@ -550,7 +635,7 @@ def run_c03_v2(case):
 # --------------------------------------------------------------------------------------
 # sharded execution in child processes (shell timeout per shard)
 
-KINDS = {"c16": run_c16_case, "genlog": run_genlog_case, "c03v1": run_c03_v1, "c03v2": run_c03_v2}
+KINDS = {"c16": run_c16_case, "c16conv": run_c16_conv, "genlog": run_genlog_case, "c03v1": run_c03_v1, "c03v2": run_c03_v2}
 
 
 def run_shards(tag, kind, cases, nproc=16, timeout=900):
